@@ -40,6 +40,7 @@ type Ctx struct {
 	Tier   string // quick | thorough
 	TmpDir string
 	Trace  bool
+	Debug  string // directory for debugging artefacts (VSIM_DEBUG), empty = off
 
 	// filled by the property
 	Probes     map[string]int
@@ -127,7 +128,7 @@ func Exec(tt *testing.T, p *Prop, tp *tape.Tape, tier string, trace bool) (*Ctx,
 		panic(err)
 	}
 	defer os.RemoveAll(dir)
-	c := &Ctx{T: tp, TT: tt, Tier: tier, TmpDir: dir, Trace: trace, Probes: map[string]int{}, Faults: map[string]int{}}
+	c := &Ctx{T: tp, TT: tt, Tier: tier, TmpDir: dir, Trace: trace, Debug: os.Getenv("VSIM_DEBUG"), Probes: map[string]int{}, Faults: map[string]int{}}
 	v := p.Run(c)
 	return c, v
 }
